@@ -76,6 +76,10 @@ class Lowered:
         for c in rec["inner"]:
             if c.get("kind") == "CXXMethodDecl" and c.get("name") in ("tick", "processUpdate"):
                 self.methods.setdefault(c["name"], []).append(c)
+            if c.get("kind") == "FunctionTemplateDecl":
+                for d in c.get("inner", []):
+                    if d.get("kind") == "CXXConstructorDecl" and any(x.get("kind") == "CompoundStmt" for x in d.get("inner", [])):
+                        self.methods.setdefault("construct", []).append(d)
         self.info = {}  # pyname -> dict(params, viable, const)
         self.dropped = set()
         fns = []
@@ -330,6 +334,60 @@ class ProcessUpdate(Contract):
         est, n, step, rem, fax = canonical_move(t0, to_real(t1), mx, st.fields["state"].z, obj.fields["_calibration"].z, ctl)
         I.path.assume(fax)
         return SObj("Struct", {"currentTime": t1, "state": SOpaque(est, "EstX")}, "moved")
+
+
+class Construct(Contract):
+    """ManagedFilter<Impl>::ManagedFilter(initialTimestamp, initialState[, calibration])    (two SFINAE-selected constructors)
+    ensures  establishes the representation invariant the tick / processUpdate contracts assume: _state.currentTime = initialTimestamp,
+             _state.state = initialState, _calibration = calibration (when the filter has calibration), _impl default-constructed;
+             the constructor without calibration is viable exactly for filters without calibration and vice versa."""
+
+    def __init__(self, low, overload):
+        self.low, self.overload = low, overload
+        self.pyname = f"construct_{overload}"
+        self.key = f"{low.modname}:ManagedFilter.{self.pyname}"
+        self.cfg = f"u{int(low.flags['HAS_CONTROL'])}c{int(low.flags['HAS_CALIBRATION'])}"
+        self.prefix = f"C12.cxx.constructor#{overload}[{self.cfg}]"
+        self.params = low.info[self.pyname]["params"]
+
+    def setup(self, I):
+        P = I.path
+        install(I, self.low)
+        I.models.builtins["default_construct"] = Builtin("default_construct", lambda I2, a, k: SObj("ImplX", {"_flags": self.low.flags, "_default": True}, "impl"))
+        P.ghost["site"] = self.prefix
+        mod = I.load_module(self.low.modname)
+        cls = I.module_attr(mod, "ManagedFilter")
+        obj = SObj(cls, {}, "mf")
+        t0 = SReal(P.fresh_real("initialTimestamp"))
+        st0 = SOpaque(P.fresh_const("initialState", Est), "EstX")
+        args = [obj, t0, st0]
+        cal = None
+        if "calibration" in self.params:
+            cal = SOpaque(P.fresh_const("calibration", CalX), "CalX")
+            args.append(cal)
+        return Call(args, {}, obj=obj, t0=t0, st0=st0, cal=cal)
+
+    def post(self, I, call, outcome):
+        P, pre = I.path, self.prefix
+        want_viable = ("calibration" in self.params) == bool(self.low.flags["HAS_CALIBRATION"])
+        if outcome[0] == "raise":
+            if outcome[1] == "StaticAssertFailure":
+                P.oblige(f"{pre}.excluded_only_in_the_other_configurations", z3.BoolVal(not want_viable))
+                return
+            P.oblige(f"{pre}.no_exception", z3.BoolVal(False), note=f"raises {outcome[1]}")
+            return
+        P.oblige(f"{pre}.viable_only_in_its_configuration", z3.BoolVal(want_viable))
+        f = call.obj.fields
+        st = f.get("_state")
+        ok = isinstance(st, SObj) and set(st.fields) == {"currentTime", "state"}
+        P.oblige(f"{pre}.holds_a_time_and_an_estimate", z3.BoolVal(ok), note=f"_state = {getattr(st, 'fields', st)}")
+        if ok:
+            P.oblige(f"{pre}.held_time_is_the_initial_timestamp", to_real(st.fields["currentTime"]) == call.t0.z)
+            P.oblige(f"{pre}.held_estimate_is_the_initial_state", z3.BoolVal(st.fields["state"] is call.st0))
+        if call.cal is not None:
+            P.oblige(f"{pre}.calibration_is_stored", z3.BoolVal(f.get("_calibration") is call.cal))
+        impl = f.get("_impl")
+        P.oblige(f"{pre}.impl_is_default_constructed", z3.BoolVal(isinstance(impl, SObj) and impl.fields.get("_default") is True))
 
 
 class FoldX:
